@@ -16,13 +16,15 @@ LEVEL = "exploration"
 RULE = ("random documents (regimes N/U/A) and the hostile fixed documents x delete paths of the C01 fragment matching "
         ">=1 node, with forced classes: several matches in one sequence (*, **, searches, pass-through), nested "
         "matches, empty list/map targets, negative indexes, the same node matched twice (** chains, collector +), "
-        "matches gathered out of document order (collectors), and the document root; also as steps of edit histories. "
+        "matches gathered out of document order (collectors, also with slice operands and with the root among the "
+        "members), lists of 11-30 elements (matches on both sides of index 9/10 and 19/20), and the document root; also as steps of edit histories. "
         "Non-trivial = >=1 matched node; distinct by (document, path, step index)")
 ASSUMPTIONS = ["set members as delete targets are outside the reference evaluator's addressable locations and are skipped",
                "collector cases are decided by an explicit location list (operands are straight paths)"]
 REACH = [("yamlpath/processor.py", "delete_nodes,_delete_nodes", "delete_nodes / _delete_nodes")]
 SIZES = {"quick": 40000, "thorough": 800000}
-REQUIRED_COUNTERS = ["delete_steps", "delete_root_steps", "delete_steps_double_match", "reload_checked"]
+REQUIRED_COUNTERS = ["delete_steps", "delete_root_steps", "delete_steps_double_match", "reload_checked", "long_list_cases",
+                     "root_in_collector_cases", "delete_collector_slice_operands"]
 
 SEEDS = [
     ("[a, [], b]", [("INDEX", 1)]), ("{a: {}, b: 1}", [("KEY", "a")]), ("[a, b, c]", [("ALL",)]),
@@ -43,7 +45,8 @@ SEEDS = [
 COLLECTOR_SEEDS = [
     ("[a, b, c]", "([0])+([0])", [(0,)]), ("[a, b, c]", "([2])+([0])", [(0,), (2,)]),
     ("[a, b, c, d]", "([3])+([1])+([0])", [(0,), (1,), (3,)]), ("{l: [a, b, c]}", "(l[1])+(l[0])", [(0, 0), (0, 1)]),
-    ("[a, b, c]", "([0:2])+([1])", [(0,), (1,)]),
+    ("[a, b, c]", "([0:2])+([1])", [(0,), (1,)]), ("[a, b, c, d, e]", "([1:3])+([0])", [(0,), (1,), (2,)]),
+    ("{l: [a, b, c, d, e]}", "(/l[1:3])+(/l[0])", [(0, 0), (0, 1), (0, 2)]),
 ]
 
 
@@ -122,6 +125,83 @@ def merge_ref_case(ctx, rng):
     ES.reload_check(ctx, data, case, "delete/merge-ref", reload_claimed=False)
 
 
+def long_list_case(ctx, rng):
+    """Lists of 11-30 elements: matches on both sides of the one-digit / two-digit index boundary (and beyond 19 / 20)."""
+    n = rng.randrange(11, 31)
+    pool = rng.choice([["a", "b", "c"], ["1", "2", "x"], ["k", "k", "z", "ab"]])
+    if rng.random() < 0.3:
+        elems = ["{up: %s, n: %d}" % (rng.choice(["true", "false"]), i) for i in range(n)]
+    else:
+        elems = [rng.choice(pool) for _ in range(n)]
+    text = "{l: [%s], other: [x, y]}" % ", ".join(elems)
+    data = yp.load(text)
+    a, b = sorted(rng.sample(range(n + 1), 2))
+    cands = [[("KEY", "l"), ("SLICE", a, b)], [("KEY", "l"), ("SLICE", a - n, b - n)] if b < n and a < n else [("KEY", "l"), ("ALL",)],
+             [("KEY", "l"), ("ALL",)], [("TRAVERSE",), ("SEARCH", False, "=", ".", rng.choice(pool))],
+             [("KEY", "l"), ("SEARCH", False, "=~", ".", "^[%s]" % rng.choice(pool)[0])],
+             [("KEY", "l"), ("SEARCH", rng.random() < 0.5, "=", "up", "false")], [("KEY", "l"), ("SEARCH", False, "=", ".", rng.choice(pool))],
+             [("KEY", "l"), ("INDEX", rng.randrange(n))], [("KEY", "l"), ("INDEX", -rng.randrange(1, n + 1))]]
+    segs = rng.choice(cands)
+    ctx.count("long_list_cases")
+    if not ES.step_delete(ctx, data, text, segs, "delete", [], reload_claimed=False):
+        return
+    if isinstance(data, dict) and isinstance(data.get("l"), list) and len(data["l"]) >= 11 and rng.random() < 0.5:
+        # a second delete on the shortened list (history of length two)
+        m = len(data["l"])
+        ES.step_delete(ctx, data, text, [("KEY", "l"), ("SLICE", max(0, m - 12), m - 1)], "delete", [["delete", gp.render(segs, ".")]],
+                       reload_claimed=False)
+
+
+def root_in_collector_case(ctx, rng):
+    """A Collector whose members include the document root: refused as a whole, nothing deleted."""
+    from vf.core.yp import Processor, LOG, YAMLPathException
+    from vf.model import edits as E
+    text, _ = gd.gen_doc(rng, "N", sets=False)
+    try:
+        data = yp.load(text)
+    except yp.LoadError:
+        return
+    if not isinstance(data, dict) or not len(data):
+        return          # a Collector expands a list result into its elements: (/) over a root list is not the root
+    ks = [k for k in data if isinstance(k, str) and k.isalnum() and not k.lstrip("-").isdigit()]
+    if not ks:
+        return
+    others = []
+    for _ in range(rng.choice([1, 2])):
+        k = rng.choice(ks)
+        v = data[k]
+        if isinstance(v, list) and not yp.is_set(v) and len(v) and rng.random() < 0.6:
+            others.append("/%s[%d]" % (k, rng.randrange(len(v))))
+        elif isinstance(v, dict) and len(v) and rng.random() < 0.6 and all(isinstance(kk, str) and kk.isalnum() and not kk.lstrip("-").isdigit() for kk in v):
+            others.append("/%s/%s" % (k, rng.choice(list(v))))
+        else:
+            others.append("/" + k)
+    ops = ["(/)"] + ["(%s)" % o for o in others]
+    rng.shuffle(ops)
+    path = "+".join(ops)
+    img0 = E.image(data)
+    case = {"doc": text, "path": path, "segs": None, "history": []}
+    ctx.evaluations += 1
+    ctx.count("delete_steps")
+    ctx.count("delete_root_steps")
+    ctx.count("root_in_collector_cases")
+    ctx.mark_nontrivial([text, path])
+    try:
+        for _ in Processor(LOG, data).delete_nodes(path):
+            pass
+        raised = None
+    except YAMLPathException as e:
+        raised = e
+    except Exception as e:
+        ctx.violation("delete/crash/%s@%s" % (type(e).__name__, ES.where(e)), {"case": case, "summary": repr(e)[:150]})
+        return
+    if raised is None:
+        ctx.violation("delete/root-not-refused", {"case": case, "summary": "a Collector holding the root was deleted without an error"})
+    if E.image(data) != img0:
+        ctx.violation("delete/root-refused-but-changed", {"case": case, "summary": "document changed: %r ; now %r" % (
+            E.diff(img0, E.image(data))[:3], yp.dump(data)[:150])})
+
+
 def run_shard(ctx):
     rng = ctx.rng
     if ctx.shard == 0:
@@ -136,6 +216,12 @@ def run_shard(ctx):
         x = rng.random()
         if x < 0.03:
             merge_ref_case(ctx, rng)
+            continue
+        if x < 0.09:
+            long_list_case(ctx, rng)
+            continue
+        if x < 0.12:
+            root_in_collector_case(ctx, rng)
             continue
         if x < 0.1:
             text = rng.choice(gd.HOSTILE)
@@ -163,10 +249,19 @@ def run_shard(ctx):
             if isinstance(data, list) else []
         if len(scal) >= 2 and rng.random() < 0.3:
             # collector operands select scalars only (a collector expands container results)
-            idxs = [rng.choice(scal) for _ in range(rng.choice([2, 2, 3]))]
-            path = "+".join("([%d])" % i for i in idxs)
-            collector_case(ctx, text, path, [(i,) for i in idxs])
-            if len(set(idxs)) < len(idxs):
+            ops, locs = [], []
+            for _ in range(rng.choice([2, 2, 3])):
+                i = rng.choice(scal)
+                j = i + rng.choice([1, 2, 3])
+                if rng.random() < 0.35 and all(k in scal for k in range(i, min(j, len(data)))):
+                    ops.append("([%d:%d])" % (i, j))                     # a slice operand (its members are wrapped)
+                    locs += [(k,) for k in range(i, min(j, len(data)))]
+                    ctx.count("delete_collector_slice_operands")
+                else:
+                    ops.append("([%d])" % i)
+                    locs.append((i,))
+            collector_case(ctx, text, "+".join(ops), locs)
+            if len(set(locs)) < len(locs):
                 ctx.count("delete_steps_double_match")
             continue
         hist = []
